@@ -241,9 +241,12 @@ def judge_beam(st: State, ev):
         'class': cls, 'start_rho_z_own_frame': [repr(rho0), repr(float(z))],
         'rays_failing': int(badi.size), 'rays': int(got.size),
     }
+    near_par = bool(np.ravel(o['near_parallel'])[i])
+    case['worst_ray']['angle_to_axis_direction'] = repr(float(np.ravel(o['tilt'])[i]))
     ctx.violation(kind, f'beam_intersection [{tag}]: got {gi!r}, ray inside the solid over {Li!r} '
                         f'({badi.size}/{got.size} rays outside the accepted interval)', case,
-                  origin=tag, sign=sign, start_inside=start_inside,
+                  origin=tag, sign=sign, start_inside=start_inside, near_parallel=near_par,
+                  all_failing_near_parallel=bool(np.all(np.ravel(o['near_parallel'])[badi])),
                   ray_class=list(cls) if cls else None)
 
 
@@ -320,7 +323,8 @@ def judge_slab(st: State, ev):
         with np.errstate(all='ignore'):
             wid = ri - le
             exp = hh / np.abs(nda)
-            tol = LD(8 * EPS) * (np.abs(le) + np.abs(ri) + exp)
+            # n.a carries an absolute rounding error ~eps: relative 1/|n.a| in the width
+            tol = LD(8 * EPS) * (np.abs(le) + np.abs(ri) + exp * (1 + 1 / np.abs(nda)))
             bad_w = well & ~(np.abs(wid - exp) <= tol)
             band = LD(K_EPS * EPS) * (bmag + hh)
             inside = (z0 > band) & (z0 < hh - band)
@@ -371,17 +375,17 @@ def judge_infinite_cylinder(st: State, ev):
         fl = _scal_values(flag, dims, shape).astype(bool)
         with np.errstate(all='ignore'):
             disc = B * B - A * C
-            band = LD(K_EPS * EPS) * (B * B + A * (q2 + rr * rr))
+            b2 = np.sum(Bv.astype(LD) ** 2, axis=-1)   # the code works with the full 3-d b
+            band = LD(K_EPS * EPS) * (B * B + A * (b2 + rr * rr)) * (1 + 1 / np.sqrt(A))
             well = A > 1e-6
             hit = well & (disc > band)
             miss = well & (disc < -band)
-            sq = np.sqrt(np.where(disc > 0, disc, LD(0)))
             bad_f = (hit & ~fl) | (miss & fl)
             # conditioning of a root: |f'(t)| = 2 sqrt(disc)
             def resid(t):
                 f = A * t * t + 2 * B * t + C
-                mag = A * t * t + 2 * np.abs(B * t) + q2 + rr * rr
-                return np.abs(f) <= LD(K_EPS * EPS) * mag + LD(0) * sq
+                mag = A * t * t + 2 * np.abs(B * t) + b2 + rr * rr
+                return np.abs(f) <= LD(K_EPS * EPS) * mag * (1 + 1 / np.sqrt(A))
             bad_r = hit & fl & ~(resid(le) & resid(ri) & (le <= ri))
     except Exception:  # noqa: BLE001
         ctx.oracle_error('C18 infinite-cylinder model')
@@ -491,8 +495,9 @@ def judge_quadrature(st: State, c, kind, result, exc, origin, canonical=False):
     ctx.dev(f'quad max node excess/(r+h) [{kind}]', float(np.max(excess)))
     ctx.dev(f'quad |sum w - V|/V [{kind}]', rel_sum)
     ctx.dev(f'quad first moment/(V (r+h)) [{kind}]', mom)
-    ctx.dev(f'quad (reported only) z^2 moment rel. residual [{kind}]', m2z)
-    ctx.dev(f'quad (reported only) rho^2 moment rel. residual [{kind}]', m2r)
+    if canonical:
+        ctx.dev(f'quad (reported only, canonical pose) z^2 moment rel. residual [{kind}]', m2z)
+        ctx.dev(f'quad (reported only, canonical pose) rho^2 moment rel. residual [{kind}]', m2r)
     case['nodes'] = int(w.size)
     if n_out:
         i = int(np.argmax(excess))
@@ -689,9 +694,12 @@ def judge_single_scatter(st: State, ev):
         g1 = float(got.ravel()[i])
         only = ('only_L_in' if abs(g1 - float(np.ravel(o1['L'])[i])) <= 1e-9 * g.scale else
                 'only_L_out' if abs(g1 - float(np.ravel(o2['L'])[i])) <= 1e-9 * g.scale else 'other')
+        bad = ~ok.ravel()
+        np_all = bool(np.all((np.ravel(o1['near_parallel']) | np.ravel(o2['near_parallel']))[bad]))
         ctx.violation('single_scatter_distance',
                       f'distance through sample {g1!r} is not L_in + L_out = '
-                      f'{float(np.ravel(o1["L"])[i] + np.ravel(o2["L"])[i])!r}', case, looks_like=only)
+                      f'{float(np.ravel(o1["L"])[i] + np.ravel(o2["L"])[i])!r}', case, looks_like=only,
+                      near_parallel=np_all, origin='in_situ')
 
 
 def on_quadrature_return(st: State, ev):
@@ -778,6 +786,7 @@ def judge_map(st: State, ev):
     ctx.dev('transmission enclosure width', float(np.max(hi - lo)))
     mu_max = float(np.max(mu))
     keys['zero_attenuation'] = bool(mu_max == 0.0)
+    keys['beam_near_parallel'] = _beam_tilt_class(g, beam)
     if not worst <= TOL_T:
         i, j = np.unravel_index(int(np.argmax(err)), err.shape)
         case.update(detector_index=int(i if sub is None else sub[i]), wavelength_index=int(j),
@@ -815,7 +824,15 @@ def judge_map(st: State, ev):
             ctx.violation('transmission_normalisation',
                           f'map differs from (weighted sum)/(pi r^2 h) by {dn:.3g}', case, **keys)
     st.maps.append({'T': T, 'geom': g, 'kind': str(kind), 'mu_max': mu_max, 'exp': exp,
-                    'sub': sub})
+                    'sub': sub, 'beam_near_parallel': keys['beam_near_parallel']})
+
+
+def _beam_tilt_class(g, beam):
+    """True when the beam is parallel to the axis up to 1e-8 rad but not exactly (bitwise)."""
+    du, dv, dz = cyl.local_dir(g.fr, beam)
+    tilt = float(np.sqrt(du * du + dv * dv) / np.sqrt(du * du + dv * dv + dz * dz))
+    exact = bool(np.all(beam == g.axis) or np.all(beam == -g.axis))
+    return bool(tilt <= 1e-8 and not exact)
 
 
 # -------------------------------------------------------------------- workload ---
@@ -892,7 +909,20 @@ def make_cylinder(Cylinder, s):
 ORIGINS = ('inside', 'outside_near', 'outside_far', 'lateral', 'cap', 'edge', 'inside', 'outside_near',
            'base_point', 'centre', 'lateral', 'cap')
 DIRS = ('random', 'parallel', 'antiparallel', 'near_parallel', 'tangent', 'edge', 'in_cap_plane',
-        'toward_axis', 'coord', 'random', 'near_parallel', 'tangent', 'edge')
+        'toward_axis', 'coord', 'random', 'parallel_to_rounding', 'tangent', 'edge')
+
+
+def _axis_to_rounding(rng, a):
+    """The axis direction as another computation would round it: a few ulps off."""
+    n = a.copy()
+    for k in range(3):
+        j = int(rng.integers(-2, 3))
+        for _ in range(abs(j)):
+            n[k] = np.nextafter(n[k], np.inf if j > 0 else -np.inf)
+    if np.all(n == a):
+        k = int(np.argmax(np.abs(a)))
+        n[k] = np.nextafter(n[k], 0.0)
+    return n
 
 
 def gen_rays(rng, s, n_rays, ctx):
@@ -938,6 +968,8 @@ def gen_rays(rng, s, n_rays, ctx):
             n = a.copy()
         elif dc == 'antiparallel':
             n = -a
+        elif dc == 'parallel_to_rounding':
+            n = _axis_to_rounding(rng, a) * (1.0 if rng.random() < 0.5 else -1.0)
         elif dc == 'near_parallel':
             t = 10.0 ** rng.uniform(-12, -9)
             ph2 = rng.uniform(0, 2 * np.pi)
@@ -986,6 +1018,8 @@ def gen_rays(rng, s, n_rays, ctx):
             ctx.hit('dir exactly parallel')
         elif dc == 'near_parallel':
             ctx.hit('dir parallel within 1e-9')
+        elif dc == 'parallel_to_rounding':
+            ctx.hit('dir parallel to rounding')
         elif dc == 'tangent':
             ctx.hit('dir tangent')
         elif dc == 'edge':
@@ -1092,7 +1126,14 @@ def transmission_case(rng, st, mods, i, tier):
     def material(scale):
         return Material(sp, sc.scalar(n_si * scale / fd, unit=d_u))
 
-    beam = _sphere(rng) if i % 4 else s['axis'] * (1.0 if i % 8 else -1.0)
+    if i % 4:
+        beam, beam_cls = _sphere(rng), 'random'
+    elif i % 8:
+        beam, beam_cls = s['axis'] * (1.0 if i % 16 == 4 else -1.0), 'along_axis'
+        ctx.hit('beam exactly along the axis')
+    else:
+        beam, beam_cls = _axis_to_rounding(rng, s['axis']), 'along_axis_to_rounding'
+        ctx.hit('beam along the axis to rounding')
     n_det = int(rng.integers(1, 7))
     centre = s['base'] + s['axis'] * s['h'] / 2
     dist = (s['r'] + s['h']) * 10.0 ** rng.uniform(0.5, 4, size=n_det)
@@ -1112,7 +1153,8 @@ def transmission_case(rng, st, mods, i, tier):
         return sc.vectors(dims=['det'], values=vals, unit=dU)
 
     st.case_descr = {'kind': 'transmission', 'axis_class': s['axis_cls'], 'quadrature': kind,
-                     'optical_depth_target': tau, 'n_det': n_det, 'lam_angstrom': lam_A.tolist()}
+                     'optical_depth_target': tau, 'n_det': n_det, 'lam_angstrom': lam_A.tolist(),
+                     'beam_class': beam_cls}
 
     def run(sol, mat, bm, D, label):
         st.maps.clear()
@@ -1169,6 +1211,7 @@ def transmission_case(rng, st, mods, i, tier):
                            'T_moved': other['T'].ravel()[:6].tolist()},
                           axis_z_negative=bool(defect_pose), rotation_applied=True,
                           quadrature_kind=kind,
+                          beam_near_parallel=bool(m1['beam_near_parallel'] or other['beam_near_parallel']),
                           axis_near_equator=bool(g1.keys['axis_near_equator'] or g2.keys['axis_near_equator']))
     st.maps.clear()
     return s
@@ -1246,8 +1289,8 @@ def requirements(tier):
     }
     forced = list(FORCED_AXIS.values()) + [
         'axis z<0', 'base at +-1e3', 'origin inside', 'origin outside', 'origin on surface',
-        'dir exactly parallel', 'dir parallel within 1e-9', 'dir tangent', 'dir through edge',
-        'wavelength 0.1 and 20 angstrom', 'detector in forward/backward direction']
+        'dir exactly parallel', 'dir parallel within 1e-9', 'dir parallel to rounding', 'dir tangent',
+        'dir through edge', 'wavelength 0.1 and 20 angstrom', 'detector in forward/backward direction']
     if tier == 'thorough':
         ev['transmission.loop_vs_vectorised'] = 1
         forced.append('per-detector loop branch (> 2e7 elements)')
@@ -1389,9 +1432,22 @@ def _rotation_near_equator(v):
             ('none', 'shape', 'inf') and int(str(k.get('excess_band') or k.get('mismatch_band'))[2:]) <= -8)
 
 
+def _near_parallel_ray(v):
+    k = v.get('keys') or {}
+    kind = v.get('kind')
+    if kind == 'path_length':
+        return k.get('all_failing_near_parallel') is True
+    if kind == 'single_scatter_distance':
+        return k.get('near_parallel') is True
+    if kind in ('transmission_value', 'transmission_rigid_motion', 'transmission_other_end'):
+        return k.get('beam_near_parallel') is True
+    return False
+
+
 FINDING_PREDICATES = {
     'quadrature.rotation_angle_asin.axis_z_negative': _rotation_negative_z,
     'quadrature.rotation_angle_asin.axis_near_equator': _rotation_near_equator,
+    'beam_intersection.direction_parallel_to_rounding': _near_parallel_ray,
 }
 
 TECHNIQUE = ('runtime monitors (sys.monitoring) on beam_intersection + helpers, quadrature, '
